@@ -143,6 +143,9 @@ func MonC02() *Mon {
 			}
 		},
 		ProcessBlock: func(n *Node, b *vt.Block, err error) {
+			if n.Faulty {
+				return // restarted with amnesia: faulty by definition
+			}
 			w, d := n.W, n.D
 			v := d.ViewNumber
 			valid, invalidEarly, invalidTimely := 0, 0, 0
@@ -179,6 +182,9 @@ func MonC02() *Mon {
 			checkContent(n, "block", &b.Header, b.Txs)
 		},
 		ProcessPreBlock: func(n *Node, pb *vt.PreBlock, err error) {
+			if n.Faulty {
+				return
+			}
 			w, d := n.W, n.D
 			v := d.ViewNumber
 			valid, invalidEarly, invalidTimely := 0, 0, 0
